@@ -6,9 +6,15 @@
                      replace, replacecli (with replacement),
                      tips, prunecli, prunekeepcli (input = α dump; items are the names of `Tips()`;
                      `prune --random k` removes the selection, with `-r` it keeps it)
+  C20.samplecmd fmt k replace seed n bad opened | bounds draws class result   (whole `gotree sample` command:
+              formats newick/nexus/phyloxml, malformed tree at position `bad`, empty input, missing file, k < 0)
   C20.shuffle what seed dump | bounds draws sync class namesAfter          what ∈ lib, cli
   C20.rotate  seed dump path | bounds draws sync class dumpAfter
   C20.rotall  seed dump | bounds draws sync class dumpAfter
+  C20.prunecmd seed dump random args tipfile comp | bounds draws class removed   (option priorities of `gotree prune`)
+  C20.utreecmd seed n rooted N | script draws class shapes   (`gotree generate uniformtree -n N`)
+  C20.shufcli seed dumps | bounds draws class namesAfter      (`gotree shuffletips` on a file of trees)
+  C20.rotcli  seed dumps | bounds draws class dumpsAfter      (`gotree rotate rand` on a file of trees)
   C20.utree   what seed n rooted | script draws sync class shape dump      what ∈ lib, cli (dump: α dump or `-`)
   C20.fib     what k n seed dump | bounds table nonfunc desync seeds
               the whole draw space of a small instance: `table` lists `draws:outcome;`
@@ -106,7 +112,7 @@ def splitBy : List Nat → List Nat → List (List Nat)
 
 def kindOf (what : String) (k n : Nat) (tr : Option T) : Option Kind :=
   match what with
-  | "sample" | "tips" | "tipsR" =>
+  | "sample" | "tips" | "tipsR" | "tipsT" =>
     some ⟨resScript (· + 1) k n,
       fun s => (dotList s).bind fun l => if validSubset k n l then some [sortNat l] else none,
       fun d => [sortNat (reservoir k (List.range n) d)], choose n (min k n)⟩
@@ -114,7 +120,7 @@ def kindOf (what : String) (k n : Nat) (tr : Option T) : Option Kind :=
     some ⟨replScript k n,
       fun s => (dotList s).bind fun l => if validSlots k n l then some [l] else none,
       fun d => [(sampleReplace k (List.range n) d).map fun o => o.getD n], n ^ k⟩
-  | "shuffle" | "shuffleR" =>
+  | "shuffle" | "shuffleR" | "shuffleT" =>
     some ⟨permScript n,
       fun s => (dotList s).bind fun l => if isPermOfRange n l then some [l] else none,
       fun d => [goPerm d], fact n⟩
@@ -134,7 +140,7 @@ def kindOf (what : String) (k n : Nat) (tr : Option T) : Option Kind :=
       ⟨script,
         fun s => ((s.splitOn "|").mapM dotList).bind fun ls =>
           if ls.length == degs.length && (ls.zip degs).all (fun p => isPermOfRange p.2 p.1) then some ls else none,
-        fun d => (splitBy degs d).zip degs |>.map fun p => rotate (List.range p.2) p.1,
+        fun d => rotAllPerms degs d,
         (degs.map fact).foldl (· * ·) 1⟩
   | _ => none
 
@@ -168,7 +174,7 @@ def handleFib (what : String) (k n : Nat) (tr : Option T) (bounds : List Nat) (t
   | some kd =>
     let sp := space bounds
     let tags := ["fib", "fib-" ++ what, "space=" ++ toString sp.length] ++
-      tagIf (sp.length > 1 && (what != "sample" && what != "tips" && what != "tipsR" || (k < n && k ≥ 1))) "nontrivial" ++
+      tagIf (sp.length > 1 && (what != "sample" && what != "tips" && what != "tipsR" && what != "tipsT" || (k < n && k ≥ 1))) "nontrivial" ++
       tagIf (k < n) "k<n" ++ tagIf (k == n) "k=n" ++ tagIf (k > n) "k>n"
     -- the table must list every draw list of the space exactly once (harness duty)
     if table.map (·.draws) != sp then bad "C20.fib: table does not enumerate the draw space of its bounds" else
@@ -198,7 +204,8 @@ def handleFib (what : String) (k n : Nat) (tr : Option T) (bounds : List Nat) (t
     let twoModels : Option String :=
       if what == "utreeU" || what == "utreeR" then
         let rooted := what == "utreeR"
-        match sp.find? (fun d => clustersOfT rooted (utreeT rooted d) != sortClusters (utree rooted d)) with
+        match sp.find? (fun d => clustersOfT rooted (utreeT rooted d) != sortClusters (utree rooted d) ||
+            roseFinal rooted d != utreeT rooted d) with
         | some d => some ("cluster model and pointer-level model differ for draws " ++ showNats d)
         | none => none
       else none
@@ -317,6 +324,109 @@ def handle (op : String) (f : List String) : Verdict :=
         finish tags oracle (protoMsg bounds (rotAllScriptT true t) draws sync)
           (if model == after then none else some ("model tree " ++ model.dump))
     | _, _, _ => bad "C20.rotall fields"
+  | "samplecmd", [fmt, ks, replS, _seed, ns, badS, openedS, boundsS, drawsS, cls, resS] =>
+    -- the whole `gotree sample` command: items are numbered 0 … n-1; `bad` = position of a malformed
+    -- tree put into the file (-1: none); an input without any tree is delivered as one error item
+    match ks.toInt?, ns.toNat?, badS.toInt?, natList boundsS, natList drawsS, natList resS with
+    | some k, some n, some bad, some bounds, some draws, some res =>
+      let repl := replS == "1"
+      let opened := openedS == "1"
+      let items : List (Option Nat) :=
+        if bad ≥ 0 then (List.range bad.toNat).map some ++ [none]
+        else if n == 0 then [none] else (List.range n).map some
+      let model := sampleCmd k repl opened items draws
+      let tags := ["samplecmd", "cli", "fmt-" ++ fmt] ++ tagIf repl "replace" ++ tagIf (k < 0) "k<0" ++
+        tagIf (!opened) "nofile" ++ tagIf (bad ≥ 0) "malformed-tree" ++ tagIf (n == 0 && bad < 0) "empty-input" ++
+        tagIf (model matches .ok _) "ok" ++ tagIf (model == .err) "err" ++ tagIf (model == .panic) "panic" ++
+        tagIf (k ≥ 0 && k.toNat < n && k ≥ 1 && bad < 0 && opened) "nontrivial" ++
+        tagIf (k.toNat ≥ n && n ≥ 1) "k>=n"
+      -- oracle: a run that selects must select as the property says; a failing run writes nothing
+      let oracle : Option String :=
+        if cls == "ok" then
+          if repl then (if validSlots k.toNat n res then none else some "not k slots filled with trees of the input")
+          else if k.toNat ≥ n then (if res == List.range n then none else some "k ≥ n: not all trees kept")
+          else if validSubset k.toNat n res then none else some "not a duplicate-free choice of k trees"
+        else if !res.isEmpty then some "trees were written although the command failed"
+        else none
+      let tie : Option String :=
+        match model with
+        | .ok out => if cls == "ok" && out == res then none else some ("model: ok " ++ showNats out)
+        | .err => if cls == "err" then none else some "model: error"
+        | .panic => if cls == "panic" then none else some "model: panic"
+      let proto := match model with
+        | .ok _ => protoMsg bounds (sampleCmdScript k repl n) draws "-"
+        | _ => none
+      finish tags oracle proto tie
+    | _, _, _, _, _, _ => bad "C20.samplecmd fields"
+  | "prunecmd", [_seed, dump, randS, argsS, tipfileS, compS, boundsS, drawsS, cls, removedS] =>
+    -- the option priorities of `gotree prune`: -f > -c > --random > arguments
+    match T.undump dump, randS.toInt?, parseStrList argsS, natList boundsS, natList drawsS, parseStrList removedS with
+    | some t, some rnd, some args, some bounds, some draws, some removed =>
+      let tipfile := if tipfileS == "-" then none else parseStrList tipfileS
+      let comp := if compS == "-" then none else parseStrList compS
+      let tips := t.tipNames
+      let tags := ["prunecmd", "cli"] ++ tagIf tipfile.isSome "opt-f" ++ tagIf comp.isSome "opt-c" ++ tagIf (rnd > 0) "opt-random" ++
+        tagIf (!args.isEmpty) "opt-args" ++ tagIf (tipfile.isNone && comp.isNone && rnd > 0) "draws" ++
+        tagIf ((tagIf tipfile.isSome "f" ++ tagIf comp.isSome "c" ++ tagIf (rnd > 0) "r" ++ tagIf (!args.isEmpty) "a").length ≥ 2) "nontrivial"
+      let drawing := tipfile.isNone && comp.isNone && rnd > 0
+      let oracle : Option String :=
+        if cls != "ok" then some ("outcome class " ++ cls)
+        else if !(removed.all tips.contains) then some "a tip disappeared that the input does not have"
+        else if drawing && !(validSubset rnd.toNat tips.length ((removed.map tips.idxOf))) then
+          some "--random k: not a duplicate-free choice of k tips"
+        else none
+      let model := (pruneSelection tipfile comp rnd args t draws).filter tips.contains
+      finish tags oracle (protoMsg bounds (pruneSelectionScript tipfile.isSome comp.isSome rnd tips.length) draws "-")
+        (if sortStrings model == sortStrings removed then none else some ("model removes " ++ showStrList model))
+    | _, _, _, _, _, _ => bad "C20.prunecmd fields"
+  | "utreecmd", [_seed, ns, rootedS, nbS, scriptS, drawsS, cls, shapesS] =>
+    -- `gotree generate uniformtree -n N`: N trees from one seed
+    match ns.toNat?, nbS.toNat?, natList scriptS, natList drawsS with
+    | some n, some nb, some script, some draws =>
+      let rooted := rootedS == "1"
+      let tags := ["utreecmd", "cli"] ++ tagIf (nb ≥ 2 && n ≥ 4) "nontrivial" ++ tagIf rooted "rooted" ++ tagIf (!rooted) "unrooted"
+      let canons := if cls == "ok" then (splitTerm "|" shapesS).map (treeCanon rooted n) else []
+      let oracle : Option String :=
+        if cls != "ok" then some ("outcome class " ++ cls)
+        else if canons.length != nb || canons.any (·.isNone) then
+          some ("not " ++ toString nb ++ " binary trees on Tip0..Tip" ++ toString (n - 1) ++ " with the requested rooting")
+        else none
+      let model := (uniformTreeCmd nb n rooted draws).map sortClusters
+      finish tags oracle (protoMsg script (uniformTreeCmdScript nb n rooted) draws "-")
+        (if canons == model.map some then none else some ("model clusters " ++ "/".intercalate (model.map showClusters)))
+    | _, _, _, _ => bad "C20.utreecmd fields"
+  | "shufcli", [_seed, dumps, boundsS, drawsS, cls, aftersS] =>
+    -- `gotree shuffletips` on a file of several trees
+    match (splitTerm "|" dumps).mapM T.undump, natList boundsS, natList drawsS, parseStrLists aftersS with
+    | some ts, some bounds, some draws, some afters =>
+      let uniq := ts.all fun t => t.tipNames.eraseDups.length == t.tipNames.length
+      let tags := ["shufcli", "cli"] ++ tagIf (ts.length ≥ 2) "multitree" ++ tagIf (ts.any (·.tipNames.length ≥ 3)) "nontrivial" ++
+        tagIf (ts.any (·.rooted)) "rooted"
+      if !uniq then ⟨.pass, "skip-dupnames" :: tags, ""⟩ else
+      let oracle : Option String :=
+        if cls != "ok" then some ("outcome class " ++ cls)
+        else if afters.length == ts.length && (afters.zip ts).all (fun p => isPermOf p.1 p.2.tipNames) then none
+        else some "tip names after are not, tree by tree, a permutation of the tip names before"
+      let model := shuffleTipsCmd ts draws
+      finish tags oracle (protoMsg bounds (shuffleTipsCmdScript ts) draws "-")
+        (if model == afters then none else some ("model names " ++ showStrLists model))
+    | _, _, _, _ => bad "C20.shufcli fields"
+  | "rotcli", [_seed, dumps, boundsS, drawsS, cls, aftersS] =>
+    match (splitTerm "|" dumps).mapM T.undump, natList boundsS, natList drawsS with
+    | some ts, some bounds, some draws =>
+      let tags := ["rotcli", "cli"] ++ tagIf (ts.any (·.size ≥ 4)) "nontrivial" ++ tagIf (ts.length ≥ 2) "multitree" ++
+        tagIf (ts.any (·.rooted)) "rooted"
+      match (if cls == "ok" then (splitTerm "|" aftersS).mapM T.undump else none) with
+      | none => ⟨.oracle, tags, "outcome class " ++ cls ++ " / output not readable"⟩
+      | some afters =>
+        let oracle : Option String :=
+          if afters.length == ts.length &&
+              (afters.zip ts).all (fun p => canonT (nwViewT p.1) == canonT (nwViewT p.2)) then none
+          else some "`rotate rand` changed more than the order of neighbours (or the number of trees)"
+        let model := (rotateRandCmd ts draws).map nwViewT
+        finish tags oracle (protoMsg bounds (rotateRandScript ts) draws "-")
+          (if model == afters.map nwViewT then none else some ("model trees " ++ "|".intercalate (model.map (·.dump))))
+    | _, _, _ => bad "C20.rotcli fields"
   | "utree", [what, _seed, ns, rootedS, scriptS, drawsS, sync, cls, shape, dump] =>
     match ns.toNat?, natList scriptS, natList drawsS with
     | some n, some script, some draws =>
@@ -325,8 +435,13 @@ def handle (op : String) (f : List String) : Verdict :=
       let exact := match T.undump dump with
         | some t => stripT t == utreeT rooted draws
         | none => false
+      -- the rose-tree model the theorems `rose_clusters` / `uniform_unrooted_bijective_rose` are about
+      let exactR := match T.undump dump with
+        | some t => stripT t == roseFinal rooted draws
+        | none => false
       let tags := ["utree", "utree-" ++ what] ++ tagIf (n ≥ 4) "nontrivial" ++ tagIf rooted "rooted" ++ tagIf (!rooted) "unrooted" ++
-        tagIf (sync == "-") "cli" ++ tagIf exact "alpha-exact" ++ tagIf (!exact && dump != "-") "alpha-differs"
+        tagIf (sync == "-") "cli" ++ tagIf exact "alpha-exact" ++ tagIf (!exact && dump != "-") "alpha-differs" ++
+        tagIf exactR "alpha-exact-rose" ++ tagIf (!exactR && dump != "-") "alpha-differs-rose"
       let canon := if cls == "ok" then treeCanon rooted n shape else none
       let oracle : Option String :=
         if cls != "ok" then some ("outcome class " ++ cls)
